@@ -279,7 +279,7 @@ theorem syncCreateTasks_spec (s : Sys) (jo : JobObj) (sp : Sys) (tasks : List Ta
       intro rj1 tasks1 h
       simp only [Option.some.injEq, Prod.mk.injEq] at h
       obtain ⟨rfl, rfl⟩ := h
-      exact ⟨JobLe.refl _, ht⟩
+      exact ⟨JobLe.refl _, adoptUnrecordedTasks_ok s jo tasks ht⟩
     · cases hreqs : computeMissingIndexesForCreation s.d jo.job (jo.job.indexes s.d) with
       | none => (try simp only); exact ⟨.refl s, by intro _ _ h; cases h⟩
       | some reqs =>
